@@ -53,7 +53,8 @@ def run(ctx):
         if not r["ok"]:
             viol.append({"kind": "corpus", "case": name, "detail": r["detail"]})
     # (1) every propagator on checked arrays (negative indices refused, too large ones raise anyway)
-    per, rnd = (400, 150) if ctx["tier"] == "quick" else (6000, 3000)
+    pb = nv.boost("engine") if any(f.startswith("propagators/") or f.startswith("heuristics/") for f in nv.changed_files()) else 1
+    per, rnd = (400 * pb, 150 * pb) if ctx["tier"] == "quick" else (6000, 3000)
     code = SWEEP % {"h": os.path.dirname(os.path.abspath(nv.__file__)), "seed": ctx["seed"], "per": per, "rnd": rnd}
     r = subprocess.run([sys.executable, "-c", code], capture_output=True, text=True, timeout=3000)
     if r.returncode != 0:
@@ -65,7 +66,7 @@ def run(ctx):
         viol.append(dict(o, kind="oob"))
     # (2) whole searches on checked arrays (stacks, trigger matrix, cost tables, heuristics): every shipped
     #     consistency algorithm x variable x value heuristic
-    n = 300 if ctx["tier"] == "quick" else 6000
+    n = 300 * nv.boost("engine") if ctx["tier"] == "quick" else 6000
     cases = gen_cases(rng, n, with_opt=True)
     out = ce.run_impl(cases, jit=False, tag="C16", checked=True, case_timeout=60)
     ans = nv.Model().ask(ce.model_lines(cases))
